@@ -5,6 +5,7 @@ import (
 	"fmt"
 	"io"
 	"strings"
+	"time"
 
 	vrt "verif/rt"
 )
@@ -282,6 +283,23 @@ func runClient(w *World, ci int, name string, cs *ConnSpec) {
 			if _, err := io.ReadFull(cl.NC, hdr); err == nil && hdr[0] == 0x15 {
 				_, _ = io.ReadFull(cl.NC, make([]byte, int(hdr[3])<<8|int(hdr[4])))
 				vrt.Atomic(func() { w.Notes[name+"-alert-read"]++ })
+			}
+			continue
+		}
+		if op == "tls-closewrite" {
+			// the client ends its side of the TLS session only (close_notify) and keeps the TCP connection:
+			// whatever it sends from now on travels in the clear
+			flush()
+			if cs.Read != "none" {
+				cl.ReadFrames(expectSoFar)
+			}
+			if tc, ok := cl.NC.(*tls.Conn); ok {
+				_ = tc.CloseWrite()
+				// crypto/tls leaves a write deadline taken from the wall clock on the socket: not part of the model
+				_ = cl.C.SetWriteDeadline(time.Time{})
+				cl.NC = cl.C
+				cl.Raw = true
+				vrt.Atomic(func() { w.Notes[name+"-closewrite"]++ })
 			}
 			continue
 		}
